@@ -468,8 +468,6 @@ func (e *kvElection) attemptPriorityTakeover(payloadBytes []byte) error {
 		return fmt.Errorf("failed to unmarshal payload after takeover: %w", err)
 	}
 
-	e.revision.Store(newRev)
-	e.token.Store(newPayloadStruct.Token)
 	e.becomeLeader(newPayloadStruct.Token, newRev)
 	return nil
 }
